@@ -121,7 +121,7 @@ def check_char_case(case, ctr):
 
 
 def run_shard(shard, tier):
-    res = e1.run_shard_generic(shard, tier, ID, check_case, variants=('pickle', 'fromdict-raw'),
+    res = e1.run_shard_generic(shard, tier, ID, check_case, variants=('pickle', 'fromdict-raw', 'used'),
                                wide_variants=('pickle', 'fromdict-raw'),
                                both_labelings=shard[0] != 'P')
     if shard[0] == 'S' and shard[1] * shard[2] <= 9:
